@@ -10,6 +10,8 @@ package http3
 import (
 	"io"
 	"net/http"
+
+	"github.com/quic-go/qpack"
 )
 
 // VerifRequestWriter wraps one requestWriter.
@@ -21,4 +23,10 @@ func VerifNewRequestWriter() *VerifRequestWriter { return &VerifRequestWriter{w:
 // WriteRequestHeader writes the HEADERS frame for req to wr.
 func (v *VerifRequestWriter) WriteRequestHeader(wr io.Writer, req *http.Request, gzip bool) error {
 	return v.w.WriteRequestHeader(wr, req, gzip, 0, nil)
+}
+
+// VerifDecodeTrailers runs the trailer section reader that both the server (request trailers) and the client
+// (response trailers) use on a HEADERS frame of the announced length whose payload is read from r.
+func VerifDecodeTrailers(r io.Reader, announcedLength uint64, maxHeaderBytes int) (http.Header, error) {
+	return decodeTrailers(r, &headersFrame{Length: announcedLength}, maxHeaderBytes, qpack.NewDecoder(), nil, 0)
 }
